@@ -32,6 +32,11 @@ def work_C14(run, rng, budget):
         sizes(run, m)
         text, _ = RD.render_v2000(m, rng, {"use_codes": True, "dt": True, "decoy_codes": False})
         ops.append(["tucan_of_molfile", text])
+        # its ordinary sibling: the same charge codes on atoms none of which is an isotope of hydrogen
+        sib = m.copy()
+        sib.atoms[0].pop("mass", None)
+        text, _ = RD.render_v2000(sib, rng, {"use_codes": True, "dt": True, "decoy_codes": False})
+        ops.append(["read", text])
     for _ in range(25 * budget):
         m = G.gen_mol(rng, max_n=14)
         sizes(run, m)
